@@ -228,9 +228,7 @@ func childMain(spec string) {
 		os.Exit(3)
 	}
 	res := &Result{Case: c, Findings: []Finding{}}
-	defer func() {
-		// a panic propagates (the runtime prints the stack to the stderr file; the coordinator classifies it)
-	}()
+	// a panic propagates: the runtime prints the stack to the stderr file and the coordinator classifies it
 	runChild(c, res)
 	writeResult(c, res)
 	os.Exit(0)
